@@ -28,6 +28,8 @@ for f in selftest/refactors/*.diff; do
     R10*) props="C01 C04 C12 C13" ;;
     R11*) props="C08 C13 C18" ;;
     R12*) props="C08 C12 C13 C18" ;;
+    R13*) props="C01 C04 C10" ;;
+    R14*) props="C18" ;;
     R5*) props="C01 C06 C08 C10 C12" ;;
     R1*|R2*) props="C01 C05 C11 C04" ;;
     R8*) props="C05 C10 C12" ;;
